@@ -29,8 +29,12 @@ Table == { <<"http", "AaBb", "/aa_bb">>, <<"http", "ABcXYz", "/abc_xyz">>, <<"ht
 Inventory == {"CtlA", "Ctl_B", "PshA", "FnCall", "FnPush", "SameCall", "SamePush"}
 MapCases == {[fam |-> "router", kind |-> "map", mapper |-> m, prefix |-> p, name |-> n, expected |-> ""] : m \in {"http", "rpc"}, p \in Prefixes, n \in Idents}
       \cup {[fam |-> "router", kind |-> "map", mapper |-> r[1], prefix |-> "", name |-> r[2], expected |-> r[3]] : r \in Table}
-RegCases == {[fam |-> "router", kind |-> "reg", mapper |-> m, group |-> g, set |-> s, unknown |-> u] :
+\* rewrite = TRUE: the peer runs the shipped ignore-case plugin, which rewrites the requested name to lower case in the
+\* header stage; dispatch then goes by the rewritten name (the registered names of the http mapper are lower case)
+RegCases == {[fam |-> "router", kind |-> "reg", mapper |-> m, group |-> g, set |-> s, unknown |-> u, rewrite |-> FALSE] :
                m \in {"http", "rpc"}, g \in {"", "g", "g/h"}, s \in (SUBSET Inventory) \ {{}}, u \in BOOLEAN}
+       \cup {[fam |-> "router", kind |-> "reg", mapper |-> "http", group |-> g, set |-> s, unknown |-> u, rewrite |-> TRUE] :
+               g \in {"", "g/h"}, s \in {{"CtlA", "PshA"}, {"Ctl_B", "FnCall", "FnPush"}, {"SameCall", "SamePush", "CtlA"}}, u \in BOOLEAN}
 \* "CtlTwin" / "PshTwin": ONE controller whose methods AaBb and Aa__Bb map to the same name under the http mapper
 \* (table rows 1 and 3) and to different names under the rpc mapper (rows 9 and 11)
 ConflictCases == {[fam |-> "router", kind |-> "conflict", mapper |-> m, pair |-> p, expectconflict |-> (p # "none" /\ (p = "CtlA+Ctl__A" => m = "http"))] :   \* Ctl__A maps onto CtlA only under the http mapper
